@@ -187,7 +187,9 @@ class VerilogTransformer(Transformer):
                         s = cname
                         Line(c, cnode, Node(c, s))
                     if s not in c.forks:
-                        if f'{s}[0]' in c.forks:  # actually a 1-bit bus?
+                        if s in sig_decls and len(sig_decls[s].names) == 1 and sig_decls[s].names[0] in c.forks:
+                            s = sig_decls[s].names[0]  # a 1-bit bus [k:k] named by its base
+                        elif f'{s}[0]' in c.forks:  # actually a 1-bit bus?
                             s = f'{s}[0]'
                         else:
                             log.warn(f'Signal not driven: {s}')
